@@ -62,6 +62,11 @@ class RuleContext:
     def require(self, rule, key, loc, text, ok, detail=None):
         return self.ob(rule, key, loc, text, ok, detail)
 
+    def failed(self, rule, key_prefix=""):
+        """has an obligation of this rule (of this context, not of a same-named rule of a dependent
+        property's sub-context) been reported as violated"""
+        return any(o.rule == rule and not o.ok and o.key.startswith(key_prefix) for o in self.obligations)
+
     def count(self, name, n=1):
         self.counts[name] = self.counts.get(name, 0) + n
 
@@ -98,6 +103,9 @@ class _SubContext:
 
     def ob(self, rule, key, loc, text, ok, detail=None, nontrivial=True):
         return self._ctx.ob("%s.%s" % (self._prefix, rule), key, loc, text, ok, detail, nontrivial)
+
+    def failed(self, rule, key_prefix=""):
+        return self._ctx.failed("%s.%s" % (self._prefix, rule), ("%s.%s" % (self._prefix, key_prefix)) if key_prefix else "")
 
     def count(self, name, n=1):
         return self._ctx.count("%s.%s" % (self._prefix, name), n)
